@@ -7,7 +7,8 @@
 (* the loader.  One action per step of the implementation:                 *)
 (*                                                                         *)
 (*   BulkBegin(b) / Bulk(b)   storeapi Bulk -> fm.Append: the bulk is in   *)
-(*                flight, then acknowledged (it lands in the active one)   *)
+(*                flight (several at a time), then acknowledged: it is in  *)
+(*                a fraction that was the active one while it was in flight*)
 (*   Rotate(n)    fm.rotate: new active fraction n at the end of the list  *)
 (*   Seal(f)      proxyFrac.Seal publishes the sealed copy of f            *)
 (*   Shift(f)     fm.shiftFirstFrac: retention pops the HEAD of the list   *)
@@ -30,7 +31,7 @@
 (***************************************************************************)
 EXTENDS Integers, Sequences, FiniteSets, TLC
 
-CONSTANTS MaxBulk, MaxFrac, MaxCrash, LoaderOrdered
+CONSTANTS MaxBulk, MaxFrac, MaxCrash, MaxPending, LoaderOrdered
 
 VARIABLES fracs,      \* live list: sequence of [id, bulks, sealed, rel]; rel = the active files were released
                       \* after the seal (until then a restart may find them and replay + seal again)
@@ -39,8 +40,9 @@ VARIABLES fracs,      \* live list: sequence of [id, bulks, sealed, rel]; rel = 
           dead,       \* ids whose deletion has begun on disk (or that a start found gone)
           acked,      \* acknowledged bulks
           retired,    \* bulks of fractions ever popped by retention
-          pending,    \* bulk in flight (0 = none)
-          inflight,   \* bulk that was in flight when the process died
+          pending,    \* bulks in flight: set of [b, c]; c = the fractions that were active while b was in flight
+                      \* (fm.Append takes the writer of the moment; a rotation may overtake the bulk)
+          inflight,   \* the bulks that were in flight when the process died (same records)
           mode,       \* "up" | "stopping" | "down" | "loading"
           exiting,    \* the last stop/crash happened while stopping (the active fraction may be sealed)
           crashes
@@ -52,24 +54,34 @@ Pos(f) == CHOOSE i \in 1..Len(fracs) : fracs[i].id = f
 MaxId == LET S == Ids(fracs) \cup {r.id : r \in limbo} \cup dead IN IF S = {} THEN 0 ELSE CHOOSE m \in S : \A x \in S : x <= m
 
 Init == /\ fracs = <<>> /\ active = 0 /\ limbo = {} /\ dead = {} /\ acked = {} /\ retired = {}
-        /\ pending = 0 /\ inflight = 0 /\ mode = "loading" /\ exiting = FALSE /\ crashes = 0
+        /\ pending = {} /\ inflight = {} /\ mode = "loading" /\ exiting = FALSE /\ crashes = 0
 
-BulkBegin(b) == /\ mode = "up" /\ active # 0 /\ pending = 0 /\ b \notin acked /\ b # inflight
-                /\ pending' = b
+InFlight(P) == {p.b : p \in P}
+BulkBegin(b) == /\ mode = "up" /\ active # 0 /\ Cardinality(pending) < MaxPending
+                /\ b \notin acked /\ b \notin InFlight(pending)
+                /\ pending' = pending \cup {[b |-> b, c |-> {active}]}
                 /\ UNCHANGED <<fracs, active, limbo, dead, acked, retired, inflight, mode, exiting, crashes>>
 
-Bulk(b) == /\ mode = "up" /\ active # 0 /\ pending = b /\ b # 0
-           /\ fracs' = [fracs EXCEPT ![Pos(active)].bulks = @ \cup {b}]
-           /\ acked' = acked \cup {b} /\ pending' = 0
-           /\ UNCHANGED <<active, limbo, dead, retired, inflight, mode, exiting, crashes>>
+\* the bulk is acknowledged: it is in one of the fractions that were active while it was in flight
+Bulk(b) == /\ mode = "up"
+           /\ \E p \in pending : /\ p.b = b /\ pending' = pending \ {p}
+                /\ \E f \in p.c :
+                     \/ /\ f \in Ids(fracs) /\ fracs' = [fracs EXCEPT ![Pos(f)].bulks = @ \cup {b}]
+                        /\ UNCHANGED <<limbo, retired>>
+                     \/ /\ \E r \in limbo : r.id = f            \* its fraction was popped by retention meanwhile
+                        /\ limbo' = {IF r.id = f THEN [r EXCEPT !.bulks = @ \cup {b}] ELSE r : r \in limbo}
+                        /\ retired' = retired \cup {b} /\ UNCHANGED fracs
+           /\ acked' = acked \cup {b}
+           /\ UNCHANGED <<active, dead, inflight, mode, exiting, crashes>>
 
 \* a new active fraction: in normal operation (maintenance) or at the end of a start that found no active one
-Rotate(n) == /\ \/ (mode = "up" /\ active # 0 /\ fracs[Pos(active)].bulks # {})   \* maintenance: DocsOnDisk > FracSize
+Rotate(n) == /\ \/ (mode = "up" /\ active # 0 /\ (fracs[Pos(active)].bulks # {} \/ pending # {}))   \* maintenance: DocsOnDisk > FracSize (written, maybe not yet acknowledged)
                 \/ (mode = "loading" /\ active = 0)
              /\ n > MaxId
              /\ fracs' = Append(fracs, [id |-> n, bulks |-> {}, sealed |-> FALSE, rel |-> FALSE])
              /\ active' = n
-             /\ UNCHANGED <<limbo, dead, acked, retired, pending, inflight, mode, exiting, crashes>>
+             /\ pending' = {[p EXCEPT !.c = @ \cup {n}] : p \in pending}
+             /\ UNCHANGED <<limbo, dead, acked, retired, inflight, mode, exiting, crashes>>
 
 \* the sealed copy of f is published; the active fraction itself is sealed only on exit
 Seal(f) == /\ mode # "down"
@@ -105,13 +117,13 @@ DelBegin(f) == /\ mode # "down" /\ \E r \in limbo : r.id = f
                /\ limbo' = {r \in limbo : r.id # f} /\ dead' = dead \cup {f}
                /\ UNCHANGED <<fracs, active, acked, retired, pending, inflight, mode, exiting, crashes>>
 
-StopBegin == /\ mode = "up" /\ pending = 0 /\ mode' = "stopping" /\ exiting' = TRUE
+StopBegin == /\ mode = "up" /\ pending = {} /\ mode' = "stopping" /\ exiting' = TRUE
              /\ UNCHANGED <<fracs, active, limbo, dead, acked, retired, pending, inflight, crashes>>
-StopEnd == /\ mode = "stopping" /\ mode' = "down" /\ inflight' = 0
+StopEnd == /\ mode = "stopping" /\ mode' = "down" /\ inflight' = {}
            /\ UNCHANGED <<fracs, active, limbo, dead, acked, retired, pending, exiting, crashes>>
 
 Crash == /\ mode # "down" /\ crashes < MaxCrash /\ crashes' = crashes + 1
-         /\ mode' = "down" /\ inflight' = pending /\ pending' = 0
+         /\ mode' = "down" /\ inflight' = pending /\ pending' = {}
          /\ UNCHANGED <<fracs, active, limbo, dead, acked, retired, exiting>>
 
 \* ---- the loader
@@ -128,16 +140,23 @@ SealCands(Back) ==
 
 ReopenCands(Back) == {r.id : r \in {q \in {fracs[i] : i \in 1..Len(fracs)} \cup Back : q.sealed /\ ~q.rel}}
 
-\* keepIn: the in-flight bulk made it to disk;  Back: popped fractions found intact;
+\* where the bulks in flight are found: 0 = nowhere, else one of the fractions that could have admitted them
+Places(Back) ==
+  LET alive == Ids(fracs) \cup {r.id : r \in Back}
+      B == InFlight(inflight)
+      C(b) == (CHOOSE p \in inflight : p.b = b).c \cap alive
+  IN {pl \in [B -> {0} \cup UNION {p.c : p \in inflight}] : \A b \in B : pl[b] = 0 \/ pl[b] \in C(b)}
+
+\* place: where each in-flight bulk is found;  Back: popped fractions found intact;
 \* DiskSealed: ids of fractions whose sealed files were complete on disk although not yet published
 \* Reopened: ids of sealed fractions whose active files were still there (not released): found as active again
-Load(keepIn, Back, DiskSealed, Reopened) ==
+Load(place, Back, DiskSealed, Reopened) ==
   /\ mode = "down"
   /\ Back \subseteq limbo
   /\ Reopened \subseteq ReopenCands(Back)
-  /\ (keepIn => inflight # 0 /\ active # 0)
+  /\ place \in Places(Back)
   /\ LET live0 == {fracs[i] : i \in 1..Len(fracs)}
-         live1 == {IF keepIn /\ r.id = active THEN [r EXCEPT !.bulks = @ \cup {inflight}] ELSE r : r \in live0} \cup Back
+         live1 == {[r EXCEPT !.bulks = @ \cup {b \in DOMAIN place : place[b] = r.id}] : r \in live0 \cup Back}
          live2 == {IF r.id \in DiskSealed THEN [r EXCEPT !.sealed = TRUE, !.rel = TRUE]
                    ELSE IF r.id \in Reopened THEN [r EXCEPT !.sealed = FALSE, !.rel = FALSE]
                    ELSE IF r.sealed THEN [r EXCEPT !.rel = TRUE] ELSE r : r \in live1}
@@ -152,9 +171,9 @@ Load(keepIn, Back, DiskSealed, Reopened) ==
         /\ LET mu == IF uns = {} THEN 0 ELSE CHOOSE m \in uns : \A x \in uns : x <= m
                newest == \A r \in kept : r.id <= mu
            IN active' = IF LoaderOrdered /\ ~newest THEN 0 ELSE mu
-        /\ acked' = IF keepIn THEN acked \cup {inflight} ELSE acked
+        /\ acked' = acked \cup {b \in DOMAIN place : place[b] # 0}
         /\ dead' = dead \cup {r.id : r \in limbo \ Back} \cup {r.id : r \in live2 \ kept}
-  /\ limbo' = {} /\ inflight' = 0 /\ pending' = 0 /\ mode' = "loading" /\ exiting' = FALSE
+  /\ limbo' = {} /\ inflight' = {} /\ pending' = {} /\ mode' = "loading" /\ exiting' = FALSE
   /\ UNCHANGED <<retired, crashes>>
 
 \* start-up is over: exactly one fraction (the active one) is left unsealed
@@ -163,11 +182,12 @@ LoadEnd == /\ mode = "loading" /\ active # 0
            /\ mode' = "up"
            /\ UNCHANGED <<fracs, active, limbo, dead, acked, retired, pending, inflight, exiting, crashes>>
 
-Next == \/ \E b \in 1..MaxBulk : (b \notin acked /\ (\A x \in 1..(b - 1) : x \in acked) /\ BulkBegin(b)) \/ Bulk(b)
+Used == acked \cup InFlight(pending)
+Next == \/ \E b \in 1..MaxBulk : (b \notin Used /\ (\A x \in 1..(b - 1) : x \in Used) /\ BulkBegin(b)) \/ Bulk(b)
         \/ (MaxId < MaxFrac /\ Rotate(MaxId + 1))
         \/ \E f \in 1..MaxFrac : Seal(f) \/ Shift(f) \/ DelBegin(f) \/ (f \notin dead /\ Released(f))
         \/ StopBegin \/ StopEnd \/ Crash \/ LoadEnd
-        \/ \E k \in BOOLEAN, B \in SUBSET limbo : \E D \in SUBSET SealCands(B), U \in SUBSET ReopenCands(B) : Load(k, B, D, U)
+        \/ \E B \in SUBSET limbo : \E pl \in Places(B), D \in SUBSET SealCands(B), U \in SUBSET ReopenCands(B) : Load(pl, B, D, U)
 Spec == Init /\ [][Next]_vars
 
 \* ---------------------------------------------------------------- properties
